@@ -277,6 +277,21 @@ def rule_instances(rng: random.Random, widths=(1, 2, 3, 4, 8, 16, 32, 64), per=6
             out.append(T("If", b1, BoolV(False), BoolV(True)))
             out.append(T("If", b1, BoolV(True), b2))
             out.append(T("__eq__", T("If", b1, x, y), T("If", b1, a, b)))
+            # Concat of parts of DIFFERENT sizes masked / shifted / extracted at the part boundary (the width bookkeeping
+            # of the Concat rules in bitwise_and_simplifier / extract_simplifier / shift rules)
+            if W >= 2:
+                for lo_w in {1, W - 1, W // 2} - {0}:
+                    hi = BVS("x", W)
+                    lo = T("Extract", BVS("y", W), ints=(lo_w - 1, 0)) if lo_w < W else BVS("y", W)
+                    cat = T("Concat", hi, lo)
+                    tw = W + lo_w
+                    for mk in ((1 << lo_w) - 1, (1 << W) - 1, ((1 << tw) - 1) ^ ((1 << lo_w) - 1), (1 << (lo_w + 1)) - 1):
+                        out.append(T("__and__", cat, BVV(mk & ((1 << tw) - 1), tw)))
+                        out.append(T("__and__", BVV(mk & ((1 << tw) - 1), tw), T("Concat", lo, hi)))
+                    out.append(T("LShR", cat, BVV(lo_w, tw)))
+                    out.append(T("__lshift__", cat, BVV(W, tw)))
+                    out.append(T("Extract", cat, ints=(lo_w - 1, 0)))
+                    out.append(T("Extract", cat, ints=(tw - 1, lo_w)))
             # flattened n-ary sums / products with constants in every position, then +/- a constant (bitwise_sub_simplifier,
             # bitwise_add_simplifier: the branches for two terms and for three or more differ)
             for inner in (T("__add__", x, y, a), T("__add__", x, a, y), T("__add__", a, x, y), T("__add__", x, y, x, a),
